@@ -22,7 +22,7 @@ PlainAtoms == {
     [A("tag") EXCEPT !.name = "tag/x"], [A("tag") EXCEPT !.name = "service/y"],
     [A("ftime") EXCEPT !.lo = 1, !.hi = 2], [A("ltime") EXCEPT !.lo = 4, !.hi = -1],
     [A("ltime") EXCEPT !.lo = 6, !.hi = -1], [A("ltime") EXCEPT !.lo = 0, !.hi = 1], [A("ftime") EXCEPT !.lo = 3, !.hi = -1],
-    [A("fteq") EXCEPT !.n = 2], A("protoself"),
+    [A("fteq") EXCEPT !.n = 2], A("protoself"), [A("hostself") EXCEPT !.bits = 24],
     \* 71 separate ids (every second number from 960 to 1100): more alternatives than fit into one 64-bit word
     [A("idlist") EXCEPT !.s = [i \in 1 .. 71 |-> 958 + 2 * i]],
     [A("dur") EXCEPT !.tok = "ge", !.n = 2], [A("dur") EXCEPT !.tok = "le", !.n = 3],
